@@ -17,7 +17,7 @@ CONSTANT CheckNs        \* TRUE: this run also judges the lease -> namespace map
 
 VARIABLE l              \* position in the trace
 
-INSTANCE KubePolicy WITH Inputs <- {}, cur <- 0, rnd <- 0, todo <- <<>>, cluster <- {}
+INSTANCE KubePolicy WITH Inputs <- {}, cur <- [rounds |-> <<>>, other |-> <<>>], rnd <- 0, todo <- <<>>, cluster <- {}
 
 Trace  == ndJsonDeserialize("trace.ndjson")
 Leases == ndJsonDeserialize("leases.ndjson")     \* [lease, ns, nsChars] of every line of the whole run
@@ -64,6 +64,17 @@ LeaseRec(t)    == [owner |-> t.lease.owner, dseq |-> t.lease.dseq, gseq |-> t.le
 
 Tag(c, S) == {<<c, x>> : x \in S}
 
+\* a recorded Deploy of any lease: rr = [err, acts, snap, built]
+RActs(rr)  == [i \in DOMAIN rr.acts |-> NAct(rr.acts[i])]
+RObjs(rr)  == {NObj(a.obj) : a \in {x \in SetOf(rr.acts) : x.verb \in {"create", "update"}}}
+RSnap(rr)  == {NObj(o) : o \in SetOf(rr.snap)}
+RBuilt(rr) == {NObj(b.obj) : b \in SetOf(rr.built)}
+LastSnap(t) == Snap(t, Len(t.rounds))
+LastMainRound(t) == Rounds(t)[Len(t.rounds)]
+AllMainSvcs(t) == Flatten([j \in DOMAIN t.rounds |-> Rounds(t)[j].svcs])
+OtherLease(o) == [owner |-> o.lease.owner, dseq |-> o.lease.dseq, gseq |-> o.lease.gseq, oseq |-> o.lease.oseq,
+                  provider |-> o.lease.provider, ns |-> o.ns]
+
 \* (i) THE VERDICT: property C11 on the objects the real code produced. Witnesses <<clause, detail>>.
 FailsRound(t, k) ==
   LET acts  == ActObjs(t, k)
@@ -73,13 +84,33 @@ FailsRound(t, k) ==
       sofar == {Rounds(t)[j].svcs : j \in 1..k}
       allsv == Flatten([j \in 1..k |-> Rounds(t)[j].svcs])
   IN Tag("placement", BadPlacement(acts \cup snap \cup built, t.ns))
+     \cup Tag("calls", BadCalls(SetOf(RecActs(t, k)), t.ns))
      \cup Tag("sandbox", BadSandbox(acts \cup snap \cup built))
      \cup Tag("limits", BadLimits(acts \cup built, now) \cup BadLimits(snap, sofar))
      \cup (IF Rounds(t)[k].st.netpol
            THEN Tag("ingress", BadIngress(snap, allsv) \cup BadIngress(built, Rounds(t)[k].svcs))
                 \cup Tag("egress", BadEgress(snap) \cup BadEgress(built))
            ELSE {})
-Fails(t) == UNION {FailsRound(t, k) : k \in DOMAIN t.rounds}
+\* the Deploy of another lease (t.other[k], abstract input t.input.other[k]) into the same cluster
+FailsOther(t, k) ==
+  LET o == t.other[k]  r == t.input.other[k].r  rr == o.round
+      acts == RObjs(rr)  snap == RSnap(rr)  built == RBuilt(rr)
+      mine2 == Mine(snap, o.ns)  mine1 == Mine(snap, t.ns)
+  IN Tag("placement", BadPlacement(acts \cup built \cup (snap \ mine1), o.ns))
+     \cup Tag("calls", BadCalls(SetOf(RActs(rr)), o.ns))
+     \cup Tag("sandbox", BadSandbox(acts \cup snap \cup built))
+     \cup Tag("limits", BadLimits(acts \cup built \cup mine2, {r.svcs}))
+     \cup (IF mine1 # Mine(LastSnap(t), t.ns) THEN {<<"interference", "neighbour-deploy">>} ELSE {})
+     \cup (IF LastMainRound(t).st.netpol
+           THEN Tag("ingress", BadIngressX(mine1, AllMainSvcs(t), NeighbourPods(snap, t.ns)))
+                \cup Tag("egress", BadEgressX(mine1, NeighbourPods(snap, t.ns)))
+           ELSE {})
+     \cup (IF r.st.netpol
+           THEN Tag("ingress", BadIngressX(mine2, r.svcs, NeighbourPods(snap, o.ns)) \cup BadIngress(built, r.svcs))
+                \cup Tag("egress", BadEgressX(mine2, NeighbourPods(snap, o.ns)) \cup BadEgress(built))
+           ELSE {})
+FailsTeardown(t) == Tag("calls", BadCalls({NAct(a) : a \in SetOf(t.teardown.acts)}, t.ns))
+Fails(t) == UNION {FailsRound(t, k) : k \in DOMAIN t.rounds} \cup UNION {FailsOther(t, k) : k \in DOMAIN t.other} \cup FailsTeardown(t)
 
 \* (ii) CONFORMANCE with the generator model
 RECURSIVE Model(_, _)
@@ -96,7 +127,20 @@ DriftRound(t, k) ==
   \* the builders called directly return what a Deploy into an empty cluster creates (last ingress of a service wins there)
   \cup (IF ~(ModelCreates(t, k) \subseteq Built(t, k)) \/ \E o \in Built(t, k) \ ModelCreates(t, k) : o.kind # "ingress"
         THEN {<<"builders", k>>} ELSE {})
-Drift(t) == UNION {DriftRound(t, k) : k \in DOMAIN t.rounds}
+ClusterAfterMain(t) == Model(t, Len(t.rounds)).cluster
+DriftOther(t, k) ==      \* at most one other lease per input
+  LET o == t.other[k]  rr == o.round
+      m == RunRound(ClusterAfterMain(t), o.ns, OtherLease(o), t.input.other[k].r)
+      fresh == RunRound({ProviderNamespaceObj}, o.ns, OtherLease(o), t.input.other[k].r)
+      creates == {fresh.acts[i].obj : i \in {j \in DOMAIN fresh.acts : fresh.acts[j].verb = "create"}} IN
+  (IF rr.err # "" THEN {<<"deploy-error", "other">>} ELSE {})
+  \cup (IF RActs(rr) # m.acts THEN {<<"calls", "other">>} ELSE {})
+  \cup (IF RSnap(rr) # m.cluster THEN {<<"cluster", "other">>} ELSE {})
+  \cup (IF ~(creates \subseteq RBuilt(rr)) \/ \E x \in RBuilt(rr) \ creates : x.kind # "ingress" THEN {<<"builders", "other">>} ELSE {})
+DriftTeardown(t) ==
+  (IF t.teardown.err # "" THEN {<<"teardown-error", 0>>} ELSE {})
+  \cup (IF [i \in DOMAIN t.teardown.acts |-> NAct(t.teardown.acts[i])] # Teardown({}, t.ns).acts THEN {<<"calls", "teardown">>} ELSE {})
+Drift(t) == UNION {DriftRound(t, k) : k \in DOMAIN t.rounds} \cup UNION {DriftOther(t, k) : k \in DOMAIN t.other} \cup DriftTeardown(t)
 
 -----------------------------------------------------------------------------
 (* the lease -> namespace map over the whole run                                                               *)
